@@ -88,6 +88,49 @@ def _crash_job(case):
     return {"points": len(base.snapshots), "states": len(states), "violations": viol, "label": label}
 
 
+def _faulted_crash_job(case):
+    """'At every instant during any API call' includes calls that an I/O error is about to fail: for every fault site of the
+    call (one-off and persistent EIO) the call is run again with that fault, and every kernel-visible tree it passes
+    through - a crash image, or what a concurrent reader sees - must satisfy I9 as well."""
+    import errno as _errno
+    from .. import engine_f
+    op, state, label = case
+    c = fscen.ctx()
+    root = os.path.join(common.scratch(), "c09-fcrash")
+    init = fscen.init_tree(state)
+    env.install()
+    base = engine_f.run_call(root, init, fscen.P, op, c)
+    docs, cids = i9.allowed_sets(c, init)
+    viol, runs, images = [], 0, 0
+    seen = set()
+    occ = {}
+    for i, sop in enumerate(base.sites):
+        if not engine_f.is_fault_site(sop):
+            continue
+        k = site_class(sop)
+        name = "%s#%d" % (k, occ.get(k, 0))
+        occ[k] = occ.get(k, 0) + 1
+        for persistent in (False, True):
+            r = engine_f.run_call(root, init, fscen.P, op, c, fault=(i, _errno.EIO, persistent), snapshots=True)
+            if not r.injected:
+                continue
+            runs += 1
+            for j, files, dirs in r.snapshots:
+                if j <= i:
+                    continue  # identical to the unfaulted run up to the fault
+                t = engine_f.tree_of(files, dirs)
+                key = common.tree_key(t)
+                if key in seen:
+                    continue
+                seen.add(key)
+                images += 1
+                for where, what in i9.check_tree(t, fscen.LAYOUT.algo, docs, cids):
+                    viol.append(({"case": label, "part": "crash-after-fault", "fault_at": name,
+                                  "mode": "persistent" if persistent else "one-off", "what": what},
+                                 {"call": list(op), "state": state, "fault_site": i, "snapshot_before_site": j}))
+    return {"runs": runs, "images": images, "violations": viol}
+
+
 def _short_job(case):
     """Every raw write(2) of the call, in turn, transfers only half of its buffer: whatever the call then reports,
     the files at permanent addresses must satisfy I9."""
@@ -158,6 +201,15 @@ def main(tier):
         sts += r["states"]
         for sig, det in r["violations"]:
             rep.violation(sig, det)
+    fruns = fimages = 0
+    for r in pmap(_faulted_crash_job, CRASH_CASES):
+        fruns += r["runs"]
+        fimages += r["images"]
+        for sig, det in r["violations"]:
+            rep.violation(sig, det)
+    rep.coverage["faulted_runs_with_crash_images"] = fruns
+    rep.coverage["distinct_crash_images_after_a_fault"] = fimages
+    sts += fimages
     rep.coverage.update({
         "states": tot["states"] + sts, "transitions": tot["transitions"] + pts,
         "traces_validated_against_impl": tot["executions"] + len(CRASH_CASES),
